@@ -145,6 +145,12 @@ func runDpipe(h *common.History) {
 	conns := []net.Conn{c0, c1}
 	closed := []bool{false, false}
 	inflight := []int{0, 0} // messages waiting to be read by end i
+	pendingW := []bool{false, false}
+	defer func() {
+		_ = c0.Close()
+		_ = c1.Close()
+		synctest.Wait()
+	}()
 	h.Obs = nil
 	for _, op := range h.Ops {
 		var obs []string
@@ -153,7 +159,34 @@ func runDpipe(h *common.History) {
 			side := common.AtoI(op[1])
 			p := toBytes(op[2:])
 			if !closed[side] && inflight[1-side] >= 1000 {
-				obs = []string{"0", "3"} // would block: not issued
+				if pendingW[side] {
+					obs = []string{"0", "3"} // a writer is already parked on this side: not issued
+					break
+				}
+				// the peer's queue is full: the write must block. It is issued in its own goroutine; if it is still parked
+				// once everything has settled, that is the model's "would block"; it is released by closing its end later.
+				res := make(chan [2]int, 1)
+				c := conns[side]
+				go func() {
+					n, err := c.Write(p)
+					switch {
+					case err == nil:
+						res <- [2]int{n, 0}
+					case errors.Is(err, io.ErrClosedPipe):
+						res <- [2]int{n, 2}
+					default:
+						res <- [2]int{n, 99}
+					}
+				}()
+				synctest.Wait()
+				select {
+				case r := <-res:
+					obs = []string{strconv.Itoa(r[0]), strconv.Itoa(r[1])} // returned although the queue was full
+				default:
+					obs = []string{"0", "3"}
+					pendingW[side] = true
+				}
+				h.Tags = append(h.Tags, "write_on_full_queue")
 				break
 			}
 			n, err := conns[side].Write(p)
@@ -306,6 +339,21 @@ func genDpipe(r *rand.Rand) *common.History {
 	return h
 }
 
+// genDpipeFull: one end writes until the peer's queue (1000 messages) is full and beyond, the peer then reads everything
+func genDpipeFull(r *rand.Rand) *common.History {
+	h := &common.History{Conf: []string{"1"}}
+	ctr := 0
+	for i := 0; i < 1003; i++ {
+		h.Ops = append(h.Ops, []string{"1", "0", common.I(ctr % 251), common.I(i % 256)})
+		ctr++
+	}
+	for i := 0; i < 1002; i++ {
+		h.Ops = append(h.Ops, []string{"2", "1", "8"})
+	}
+	h.Ops = append(h.Ops, []string{"3", "0"})
+	return h
+}
+
 func run(h *common.History) {
 	if len(h.Conf) > 0 && h.Conf[0] == "1" {
 		runDpipe(h)
@@ -331,6 +379,10 @@ func TestHarness(t *testing.T) {
 	} else {
 		r := common.Rng(a.Seed, 0x18)
 		for i := 0; i < a.N; i++ {
+			if a.Seed%1000 == 0 && i == 0 {
+				hs = append(hs, genDpipeFull(r)) // one long history per run
+				continue
+			}
 			if i%4 == 3 {
 				hs = append(hs, genDpipe(r))
 			} else {
